@@ -163,7 +163,7 @@ inductive Ev
   | wret (k : Nat) (ok : Bool)
   | brel (k : Nat)
   | feed (f : Frame)
-  | rerr (e : Err)            -- ReadMessage returns an error (shutdown = io.EOF)
+  | rerr (eof : Bool)         -- ReadMessage returns an error: io.EOF (→ ErrShutdown) or another I/O error
   | cancel (k : Nat)
   | close
   -- threads
@@ -281,8 +281,8 @@ def step (s : State) : Ev → Option State
     if s.reader != .waiting || s.msgsClosed then none else
     if s.cfg.directIO then some { s with reader := .decoding f, fed := s.fed ++ [f] }
     else some { s with decodeQ := s.decodeQ ++ [f], fed := s.fed ++ [f] }
-  | .rerr e =>
-    if s.reader != .waiting then none else some { s with reader := .ended e }
+  | .rerr eof =>
+    if s.reader != .waiting then none else some { s with reader := .ended (if eof then .shutdown else .rfail) }
   | .seeClose =>
     if s.reader == .waiting && s.msgsClosed then some { s with reader := .ended .shutdown } else none
   | .close =>
